@@ -69,7 +69,7 @@ def lost_case(ctx, kind, inp, inp2, user_seed, spelling):
                 continue
             lost = [(nm, oldb[(rel, nm)][0]) for (_o, _c, nm) in oldpairs if nm not in newnames and oldb[(rel, nm)][0]]
             lname = rel + ".LostCode.txt"
-            fk = "%s:%s:%s" % (kind, inp2.get("name"), rel)
+            fk = "%s:%s:%s" % (kind, inp2.get("name"), os.path.basename(rel))
             if lost:
                 nontrivial = True
                 lc = now.get(lname)
